@@ -163,8 +163,12 @@ def candidates(case):
 def reduce_case(arm, case, bucket, ctx=None, max_rounds=30, log=None):
     ctx = ctx or Ctx()
 
+    valid = getattr(arm, "valid", None)
+
     def fails(c):
         try:
+            if valid is not None and not valid(c):
+                return False
             res = arm.run(c, ctx)
         except Exception:
             return False
